@@ -53,13 +53,18 @@ ENGINES = {
     },
     'mem': {
         'dir': 'sim/mem',
-        'common': [('mem_main.cpp', 'mem_main.o', ['-std=c++17', '-O1'])],
-        'avel_tus': [('mem_ops.cpp', [])],
-        'link': ['-Wl,-z,now'],
+        'common': [('mem_main.cpp', 'mem_main.o', ['-std=c++17', '-O1', '-pthread']), ('mem_poison.S', 'mem_poison.o', [])],
+        'avel_tus': [('mem_ops.cpp', ['-DMEM_PART=%d' % k], 'mem_ops_%d.o' % k) for k in range(11)],
+        'link': ['-Wl,-z,now', '-pthread'],
         'configs': C.vector_configs,
         'seeded_runs': {'quick': 100000, 'thorough': 10000000},
         'gate_n': {'quick': 200, 'thorough': 5000},
-        'required_probes': {'C08': [], 'C09': [], 'C20': []},
+        'required_probes': {'C08': ['n0_calls', 'vector_misaligned_pointer', 'gather_scatter_with_wild_inactive_indices', 'scatter_duplicate_active_indices'],
+                            'C09': ['partial_store_flush_against_inaccessible_page', 'partial_load_flush_against_inaccessible_page', 'range_starts_right_after_inaccessible_page',
+                                    'n0_calls', 'gather_scatter_with_wild_inactive_indices', 'exhaustive_k_sweeps'],
+                            'C20': ['prefetch_range_touches_inaccessible_memory', 'prefetch_null_pointer', 'prefetch_n0']},
+        'required_faults_by_prop': {'C08': ['stale_stack_and_register_poison'], 'C09': ['page_N_adjacent', 'page_R_adjacent', 'page_H_adjacent', 'watch_windows_armed', 'neighbour_write_at_instruction_k', 'stale_stack_and_register_poison'],
+                                    'C20': ['neighbour_write_at_instruction_k']},
         'required_faults': [],
     },
 }
@@ -473,7 +478,7 @@ def main():
     for p_ in E['required_probes'].get(prop, []):
         if agg['probes'].get(p_, 0) == 0:
             harness_problems.append('required probe %s never fired' % p_)
-    for f_ in E['required_faults']:
+    for f_ in E['required_faults'] + E.get('required_faults_by_prop', {}).get(prop, []):
         if agg['faults'].get(f_, 0) == 0:
             harness_problems.append('required fault kind %s never fired' % f_)
 
